@@ -228,9 +228,13 @@ def check_meta(case, ctx):
                 same_shape = [x for x in trees if strip_spans(x) == strip_spans(nt)]
                 if not same_shape:
                     continue    # shaping is decided by C03
+                # an ambiguous input has several derivations of the same shape: report against the closest one (a known deviation
+                # explains the difference if it does so for one of them)
+                has_q = any('?' in r['mod'] for r in g['rules'])
+                same_shape.sort(key=lambda c: (not (_has_collapsed_token_case(nt, c) or _only_empty_adopting(nt, c)), show_spans(c)))
                 raise Violation('node meta is not the extent of the tokens its rule matched', grammar=gtext, text=w,
-                                got=show_spans(nt), want=show_spans(same_shape[0]), collapsed_token=_has_collapsed_token_case(nt, same_shape[0]) and any('?' in r['mod'] for r in g['rules']),
-                                empty_child_adopts=_only_empty_adopting(nt, same_shape[0]) and any('?' in r['mod'] for r in g['rules']), **extra)
+                                got=show_spans(nt), want=show_spans(same_shape[0]), collapsed_token=_has_collapsed_token_case(nt, same_shape[0]) and has_q,
+                                empty_child_adopts=_only_empty_adopting(nt, same_shape[0]) and has_q, **extra)
             meta_consistent(t, w, gtext, w, extra)
             ctx.label('meta:checked')
             if '\n' in w.strip('\n') and isinstance(t, Tree) and len(t.children) > 0:
